@@ -28,6 +28,10 @@ def run(ctx, profile, note, known_obs=None, extra_trusted=None):
         conc_diff.build(jobs=12)
     except Exception as e:
         raise common.CheckError("building harness-conc / replayer failed: " + str(e)[-3000:])
+    fb = os.path.join(common.BUILD, "ocaml-conc", "KERNEL_FALLBACK")
+    if os.path.exists(fb) and proof_broken is None:
+        proof_broken = dict(kind="proof", detail="interface lemmas over the kernels translated from the current source no "
+                            "longer check (replayer built from the hand-written kernels instead):\n" + open(fb).read()[-2500:])
     res = conc_diff.run_conc(profile, ctx.seed, ctx.tier)
     if res["error"]:
         raise common.CheckError("harness-conc %s: %s" % (profile, res["error"]))
